@@ -1,0 +1,18 @@
+//go:build verif
+
+package raft
+
+// Machine-checked contracts for the gowp verifier (/verif). Comment-only; compiled only under the
+// build tag "verif"; declares nothing.
+
+// Applying a replicated log entry runs the key deletion or the command handler in the database the
+// leader recorded in the request, with the key / command the leader recorded.
+// The command lookup the server installs (sugardb.getCommand) writes nothing (assumed for every value of the field).
+//@ fieldspec raft.FSMOpts.GetCommand props C07
+//@   modifies nothing
+
+//@ func (*FSM).Apply props C07,C20
+//@   requires log != nil
+//@   assert @DeleteKey#0 {C07,C20} apply-delete-db: hasdb(arg0) && dbof(arg0) == request.Database && arg1 == request.Key
+//@   assert @GetHandlerFuncParams#0 {C07,C20} apply-command-db: hasdb(arg0) && dbof(arg0) == request.Database && arg1 == request.CMD && arg2 == nil
+//@   modifies *
